@@ -23,19 +23,19 @@ structure AGeo where
 /-- the state words as a list -/
 def sw (s : W4) : List UInt32 := [s.a, s.b, s.c, s.d]
 
-structure AI (g : AGeo) (M : Array Block) (nv : Nat) (env : Env) (st : St) (s : W4) (kws : List UInt32) : Prop where
+structure AI (g : AGeo) (M : Array Block) (nv : Nat) (env : Env) (st : St) (s : W4) (kws : List UInt32) (sv : Nat := 0) : Prop where
   esz : env.size = nv
-  e0 : env[0]? = some (mkPtr g.bs g.baseS, .pub)
+  e0 : env[sv]? = some (mkPtr g.bs g.baseS, .pub)
   klen : kws.length = g.nk
   obj : ∃ X, st.mem[g.bs]? = some ⟨X, g.baseS⟩ ∧ X.size = 16 + 4 * g.nk ∧ WordsV X (sw s ++ kws)
   oth : OthLe g.bs st.mem M
   msz : st.mem.size = M.size
   ent : st.ent = g.ent0
 
-def addrS (i : Nat) : Expr := if i = 0 then .var 0 else .bin .add .u64 (.var 0) (.lit (4 * i))
+def addrS (i : Nat) (sv : Nat := 0) : Expr := if i = 0 then .var sv else .bin .add .u64 (.var sv) (.lit (4 * i))
 
-theorem evalE_addrS (g : AGeo) {env : Env} (i : Nat) (hi : i < 4) (h0 : env[0]? = some (mkPtr g.bs g.baseS, .pub)) :
-    evalE env (addrS i) = .ok (mkPtr g.bs (g.baseS + 4 * i), .pub) := by
+theorem evalE_addrS (g : AGeo) {env : Env} (i : Nat) (hi : i < 4) {sv : Nat} (h0 : env[sv]? = some (mkPtr g.bs g.baseS, .pub)) :
+    evalE env (addrS i sv) = .ok (mkPtr g.bs (g.baseS + 4 * i), .pub) := by
   have := g.hlt
   unfold addrS
   by_cases hz : i = 0
@@ -64,12 +64,12 @@ theorem sw_get (s : W4) (i : Nat) (hi : i < 4) (kws : List UInt32) : (sw s ++ kw
   | 3, _ => rfl
 
 /-- `p = &state->s[i]; x = *p; *p = x ^ E` -/
-theorem ai_xor {g : AGeo} {M : Array Block} {nv : Nat} {env : Env} {st : St} {s : W4} {kws : List UInt32} (ai : AI g M nv env st s kws) (i t x : Nat) (E : Expr) (c : UInt32)
-    (hi : i < 4) (ht : 1 ≤ t ∧ t < nv) (hx : 1 ≤ x ∧ x < nv) (htx : t ≠ x)
+theorem ai_xor {g : AGeo} {M : Array Block} {nv : Nat} {env : Env} {st : St} {s : W4} {kws : List UInt32} {sv : Nat} (ai : AI g M nv env st s kws sv) (i t x : Nat) (E : Expr) (c : UInt32)
+    (hi : i < 4) (ht : t ≠ sv ∧ t < nv) (hx : x ≠ sv ∧ x < nv) (htx : t ≠ x)
     (hE : ∀ e' : Env, (∀ y, y ≠ t → y ≠ x → e'[y]? = env[y]?) → EvalD e' E c.toNat)
     {Q : Sig → Env → St → Prop}
-    (hQ : ∀ e' s', e'.size = nv → (∀ y, y ≠ t → y ≠ x → e'[y]? = env[y]?) → AI g M nv e' s' (setW s i ((sw s).getD i 0 ^^^ c)) kws → Q .normal e' s') :
-    RunsTo g.prog (seqs [.assign t (addrS i), .load x .u32 (.var t), .store .u32 (.var t) (.bin .bxor .u32 (.var x) E)]) env st Q := by
+    (hQ : ∀ e' s', e'.size = nv → (∀ y, y ≠ t → y ≠ x → e'[y]? = env[y]?) → AI g M nv e' s' (setW s i ((sw s).getD i 0 ^^^ c)) kws sv → Q .normal e' s') :
+    RunsTo g.prog (seqs [.assign t (addrS i sv), .load x .u32 (.var t), .store .u32 (.var t) (.bin .bxor .u32 (.var x) E)]) env st Q := by
   obtain ⟨X, hm, hXs, hw⟩ := ai.obj
   have hlt := g.hlt
   have hes := ai.esz
@@ -98,7 +98,7 @@ theorem ai_xor {g : AGeo} {M : Array Block} {nv : Nat} {env : Env} {st : St} {s 
       (resolve_word hm (4 * i) (by have := g.hal; omega) (by omega) (by omega)) ?_
     rw [blockBytes_of hm]
     refine hQ _ _ e2s fr2 ⟨e2s, ?_, ai.klen, ⟨writeLE X (4 * i) (v ^^^ c).toNat lr 4, ?_, by rw [size_writeLE]; exact hXs, ?_⟩, ?_, ?_, ai.ent⟩
-    · rw [fr2 0 (by omega) (by omega)]; exact ai.e0
+    · rw [fr2 sv (by omega) (by omega)]; exact ai.e0
     · show (setBlock st.mem g.bs _)[g.bs]? = _; rw [getElem?_setBlock', if_pos rfl, hm]; rfl
     · have := hw.set i (by simp [sw]; omega) (v ^^^ c) lr hlr
       rw [sw_set s i hi] at this
@@ -120,20 +120,20 @@ theorem envLe_has {e e' : Env} (h : EnvLe e' e) {x v : Nat} (hx : EnvHas e x v) 
     exact ⟨l', he, fun hu => by have := hi.2; simp only [hu] at this; cases l <;> first | exact absurd rfl hl | exact this.elim⟩
 
 /-- the permutation call on the state object -/
-theorem ai_perm {g : AGeo} {M : Array Block} {nv : Nat} {env : Env} {st : St} {s : W4} {kws : List UInt32} (ai : AI g M nv env st s kws) (er : Expr) (r : Nat)
+theorem ai_perm {g : AGeo} {M : Array Block} {nv : Nat} {env : Env} {st : St} {s : W4} {kws : List UInt32} {sv : Nat} (ai : AI g M nv env st s kws sv) (er : Expr) (r : Nat)
     (hr : r < 4294967296) (her : evalE env er = .ok (r, .pub))
-    {Q : Sig → Env → St → Prop} (hQ : ∀ e' s', EnvLe e' env → AI g M nv e' s' (g.P kws r s) kws → Q .normal e' s') :
-    RunsTo g.prog (.call none g.pidx [.var 0, er]) env st Q := by
+    {Q : Sig → Env → St → Prop} (hQ : ∀ e' s', EnvLe e' env → AI g M nv e' s' (g.P kws r s) kws sv → Q .normal e' s') :
+    RunsTo g.prog (.call none g.pidx [.var sv, er]) env st Q := by
   obtain ⟨X, hm, hXs, hw⟩ := ai.obj
-  refine (g.hspec env st (.var 0) er r g.bs g.baseS X s kws ai.klen hr (by simp only [evalE, ai.e0, reduceCtorEq, if_false]) her hm g.hal
+  refine (g.hspec env st (.var sv) er r g.bs g.baseS X s kws ai.klen hr (by simp only [evalE, ai.e0, reduceCtorEq, if_false]) her hm g.hal
     (by rw [hXs]; exact g.hlt) g.hbs30 hw hXs).weaken ?_
   intro sig e s' ⟨hs, hee, hent, hmsz, hoth, blk', hb', hbase, hbsz, hw'⟩
   subst hs
-  refine hQ e s' hee ⟨by rw [hee.size_eq]; exact ai.esz, envLe_pub hee 0 _ ai.e0, ai.klen, ⟨blk'.bytes, by rw [hb', ← hbase], by rw [hbsz, hXs], hw'⟩,
+  refine hQ e s' hee ⟨by rw [hee.size_eq]; exact ai.esz, envLe_pub hee sv _ ai.e0, ai.klen, ⟨blk'.bytes, by rw [hb', ← hbase], by rw [hbsz, hXs], hw'⟩,
     hoth.trans ai.oth, by rw [hmsz]; exact ai.msz, by rw [hent]; exact ai.ent⟩
 
 /-- a data block somewhere else in memory: the bytes it held initially are still readable (with defined labels) -/
-theorem data_block {g : AGeo} {M : Array Block} {nv : Nat} {env : Env} {st : St} {s : W4} {kws : List UInt32} (ai : AI g M nv env st s kws) (bd : Nat) (hne : bd ≠ g.bs)
+theorem data_block {g : AGeo} {M : Array Block} {nv : Nat} {env : Env} {st : St} {s : W4} {kws : List UInt32} {sv : Nat} (ai : AI g M nv env st s kws sv) (bd : Nat) (hne : bd ≠ g.bs)
     (XD : Array LByte) (based off : Nat) (data : Bytes) (h0 : M[bd]? = some ⟨XD, based⟩) (hd : BytesV XD off data) :
     ∃ XD', st.mem[bd]? = some ⟨XD', based⟩ ∧ XD'.size = XD.size ∧ BytesV XD' off data := by
   have hrel := ai.oth bd hne
@@ -160,10 +160,10 @@ theorem load_byte {prog : Program} {env : Env} {st : St} (x : Nat) (ae : Expr) (
     · rw [Array.getElem?_eq_none (by omega)] at hx; cases hx
   exact runs_load (mkPtr bd (based + q)) bd q 1 (b.toNat, l) rfl hae (resolve_byte hm q (by omega) hlt) (by rw [blockBytes_of hm]; exact hrd) (hQ l hl)
 
-def addrD (o : Nat) : Expr := if o = 0 then .var 1 else .bin .add .u64 (.var 1) (.lit o)
+def addrD (o : Nat) (dv : Nat := 1) : Expr := if o = 0 then .var dv else .bin .add .u64 (.var dv) (.lit o)
 
-theorem evalE_addrD {env : Env} (bd based o : Nat) (hbd30 : bd < 2 ^ 30) (hlt : based + o < ptrBase) (h1 : env[1]? = some (mkPtr bd based, .pub)) :
-    evalE env (addrD o) = .ok (mkPtr bd (based + o), .pub) := by
+theorem evalE_addrD {env : Env} (bd based o : Nat) (hbd30 : bd < 2 ^ 30) (hlt : based + o < ptrBase) {dv : Nat} (h1 : env[dv]? = some (mkPtr bd based, .pub)) :
+    evalE env (addrD o dv) = .ok (mkPtr bd (based + o), .pub) := by
   unfold addrD
   by_cases hz : o = 0
   · subst hz; simp only [if_true, evalE, h1, reduceCtorEq, if_false, Nat.add_zero]
@@ -172,13 +172,13 @@ theorem evalE_addrD {env : Env} (bd based o : Nat) (hbd30 : bd < 2 ^ 30) (hlt : 
     rw [ptr_off bd based o hbd30 hlt]
 
 /-- a run of byte loads `y = data[o]` -/
-def loadsOf (loads : List (Nat × Nat)) : List Stmt := loads.map fun yo => .load yo.1 .u8 (addrD yo.2)
+def loadsOf (loads : List (Nat × Nat)) (dv : Nat := 1) : List Stmt := loads.map fun yo => .load yo.1 .u8 (addrD yo.2 dv)
 
-theorem runs_loads {prog : Program} (bd based off : Nat) (XD : Array LByte) (dat : Bytes) (hbd30 : bd < 2 ^ 30) (hlt : based + XD.size < ptrBase)
+theorem runs_loads {prog : Program} {dv : Nat} (bd based off : Nat) (XD : Array LByte) (dat : Bytes) (hbd30 : bd < 2 ^ 30) (hlt : based + XD.size < ptrBase)
     (hd : BytesV XD off dat) :
-    ∀ (loads : List (Nat × Nat)) (env : Env) (st : St), loads ≠ [] → env[1]? = some (mkPtr bd (based + off), .pub) → st.mem[bd]? = some ⟨XD, based⟩ →
-      (∀ yo ∈ loads, yo.1 ≠ 1 ∧ yo.1 < env.size ∧ yo.2 < dat.length) → (loads.map Prod.fst).Nodup →
-      RunsTo prog (seqs (loadsOf loads)) env st (fun sig e' s' => sig = .normal ∧ e'.size = env.size ∧ s'.mem = st.mem ∧ s'.ent = st.ent ∧
+    ∀ (loads : List (Nat × Nat)) (env : Env) (st : St), loads ≠ [] → env[dv]? = some (mkPtr bd (based + off), .pub) → st.mem[bd]? = some ⟨XD, based⟩ →
+      (∀ yo ∈ loads, yo.1 ≠ dv ∧ yo.1 < env.size ∧ yo.2 < dat.length) → (loads.map Prod.fst).Nodup →
+      RunsTo prog (seqs (loadsOf loads dv)) env st (fun sig e' s' => sig = .normal ∧ e'.size = env.size ∧ s'.mem = st.mem ∧ s'.ent = st.ent ∧
         (∀ z, z ∉ loads.map Prod.fst → e'[z]? = env[z]?) ∧ (∀ yo ∈ loads, EnvHas e' yo.1 (dat.getD yo.2 0).toNat)) := by
   intro loads
   induction loads with
@@ -190,9 +190,9 @@ theorem runs_loads {prog : Program} (bd based off : Nat) (XD : Array LByte) (dat
     have hbo : BV XD (off + o) (dat.getD o 0) :=
       hd.2 o (dat.getD o 0) (by rw [List.getD_eq_getElem?_getD, List.getElem?_eq_getElem hy.2.2]; rfl)
     have hosz : off + o < XD.size := by have := hd.1; omega
-    have step : RunsTo prog (.load y .u8 (addrD o)) env st (fun sig e' s' => sig = .normal ∧ ∃ l, l ≠ Lab.undef ∧
+    have step : RunsTo prog (.load y .u8 (addrD o dv)) env st (fun sig e' s' => sig = .normal ∧ ∃ l, l ≠ Lab.undef ∧
         e' = setVar env y ((dat.getD o 0).toNat, l) ∧ s' = { st with leak := Ev.rd (mkPtr bd (based + (off + o))) 1 :: st.leak }) :=
-      load_byte y (addrD o) bd based (off + o) XD _ (by rw [evalE_addrD bd (based + off) o hbd30 (by omega) h1, Nat.add_assoc]) hm hbo (by omega)
+      load_byte y (addrD o dv) bd based (off + o) XD _ (by rw [evalE_addrD bd (based + off) o hbd30 (by omega) h1, Nat.add_assoc]) hm hbo (by omega)
         (fun l hl => ⟨rfl, l, hl, rfl, rfl⟩)
     cases rest with
     | nil =>
@@ -205,7 +205,7 @@ theorem runs_loads {prog : Program} (bd based off : Nat) (XD : Array LByte) (dat
         rw [hyo]
         exact ⟨l, get_set_eq _ _ _ hy.2.1, hl⟩
     | cons yo2 rest2 =>
-      show RunsTo prog (.seq (.load y .u8 (addrD o)) (seqs (loadsOf (yo2 :: rest2)))) env st _
+      show RunsTo prog (.seq (.load y .u8 (addrD o dv)) (seqs (loadsOf (yo2 :: rest2) dv))) env st _
       refine runs_seq (Q := fun e' s' => ∃ l, l ≠ Lab.undef ∧ e' = setVar env y ((dat.getD o 0).toNat, l) ∧
           s' = { st with leak := Ev.rd (mkPtr bd (based + (off + o))) 1 :: st.leak }) step ?_
       intro e' s' ⟨l, hl, he, hst⟩
@@ -227,11 +227,11 @@ theorem runs_loads {prog : Program} (bd based off : Nat) (XD : Array LByte) (dat
         · exact hhas yo h
 
 /-- `x = *p; *p = x ^ E` where variable `t` already holds `p = &state->s[i]` -/
-theorem ai_xor_tail {g : AGeo} {M : Array Block} {nv : Nat} {env : Env} {st : St} {s : W4} {kws : List UInt32} (ai : AI g M nv env st s kws) (i t x : Nat) (E : Expr) (c : UInt32)
-    (hi : i < 4) (ht : 1 ≤ t ∧ t < nv) (hx : 1 ≤ x ∧ x < nv) (htx : t ≠ x) (het : env[t]? = some (mkPtr g.bs (g.baseS + 4 * i), .pub))
+theorem ai_xor_tail {g : AGeo} {M : Array Block} {nv : Nat} {env : Env} {st : St} {s : W4} {kws : List UInt32} {sv : Nat} (ai : AI g M nv env st s kws sv) (i t x : Nat) (E : Expr) (c : UInt32)
+    (hi : i < 4) (ht : t ≠ sv ∧ t < nv) (hx : x ≠ sv ∧ x < nv) (htx : t ≠ x) (het : env[t]? = some (mkPtr g.bs (g.baseS + 4 * i), .pub))
     (hE : ∀ e' : Env, (∀ y, y ≠ x → e'[y]? = env[y]?) → EvalD e' E c.toNat)
     {Q : Sig → Env → St → Prop}
-    (hQ : ∀ e' s', e'.size = nv → (∀ y, y ≠ x → e'[y]? = env[y]?) → AI g M nv e' s' (setW s i ((sw s).getD i 0 ^^^ c)) kws → Q .normal e' s') :
+    (hQ : ∀ e' s', e'.size = nv → (∀ y, y ≠ x → e'[y]? = env[y]?) → AI g M nv e' s' (setW s i ((sw s).getD i 0 ^^^ c)) kws sv → Q .normal e' s') :
     RunsTo g.prog (seqs [.load x .u32 (.var t), .store .u32 (.var t) (.bin .bxor .u32 (.var x) E)]) env st Q := by
   obtain ⟨X, hm, hXs, hw⟩ := ai.obj
   have hlt := g.hlt
@@ -254,7 +254,7 @@ theorem ai_xor_tail {g : AGeo} {M : Array Block} {nv : Nat} {env : Env} {st : St
       (resolve_word hm (4 * i) (by have := g.hal; omega) (by omega) (by omega)) ?_
     rw [blockBytes_of hm]
     refine hQ _ _ e2s fr2 ⟨e2s, ?_, ai.klen, ⟨writeLE X (4 * i) (v ^^^ c).toNat lr 4, ?_, by rw [size_writeLE]; exact hXs, ?_⟩, ?_, ?_, ai.ent⟩
-    · rw [fr2 0 (by omega)]; exact ai.e0
+    · rw [fr2 sv (by omega)]; exact ai.e0
     · show (setBlock st.mem g.bs _)[g.bs]? = _; rw [getElem?_setBlock', if_pos rfl, hm]; rfl
     · have := hw.set i (by simp [sw]; omega) (v ^^^ c) lr hlr
       rw [sw_set s i hi] at this
@@ -273,28 +273,27 @@ structure DGeo (g : AGeo) (M : Array Block) where
   h0 : M[bd]? = some ⟨XD, based⟩
 
 /-- `p = &state->s[i]; y_1 = data[o_1]; …; x = *p; *p = x ^ E(y_1, …)` -/
-theorem ai_xor_data {g : AGeo} {M : Array Block} (dg : DGeo g M) {nv : Nat} {env : Env} {st : St} {s : W4} {kws : List UInt32} (ai : AI g M nv env st s kws)
-    (off : Nat) (dat : Bytes) (hd : BytesV dg.XD off dat) (he1 : env[1]? = some (mkPtr dg.bd (dg.based + off), .pub))
+theorem ai_xor_data {g : AGeo} {M : Array Block} (dg : DGeo g M) {nv : Nat} {env : Env} {st : St} {s : W4} {kws : List UInt32} {sv : Nat} (ai : AI g M nv env st s kws sv)
+    (off : Nat) (dat : Bytes) (hd : BytesV dg.XD off dat) {dv : Nat} (he1 : env[dv]? = some (mkPtr dg.bd (dg.based + off), .pub))
     (i t x : Nat) (loads : List (Nat × Nat)) (E : Expr) (c : UInt32)
-    (hi : i < 4) (ht : 2 ≤ t ∧ t < nv) (hx : 2 ≤ x ∧ x < nv) (htx : t ≠ x) (hl0 : loads ≠ [])
-    (hall : ∀ yo ∈ loads, 2 ≤ yo.1 ∧ yo.1 < nv ∧ yo.1 ≠ t ∧ yo.1 ≠ x ∧ yo.2 < dat.length) (hnd : (loads.map Prod.fst).Nodup)
+    (hi : i < 4) (ht : t ≠ sv ∧ t ≠ dv ∧ t < nv) (hx : x ≠ sv ∧ x ≠ dv ∧ x < nv) (htx : t ≠ x) (hl0 : loads ≠ [])
+    (hall : ∀ yo ∈ loads, yo.1 ≠ sv ∧ yo.1 ≠ dv ∧ yo.1 < nv ∧ yo.1 ≠ t ∧ yo.1 ≠ x ∧ yo.2 < dat.length) (hnd : (loads.map Prod.fst).Nodup)
     (hE : ∀ e' : Env, (∀ yo ∈ loads, EnvHas e' yo.1 (dat.getD yo.2 0).toNat) → EvalD e' E c.toNat)
     {Q : Sig → Env → St → Prop}
     (hQ : ∀ e' s', e'.size = nv → (∀ y, y ≠ t → y ≠ x → y ∉ loads.map Prod.fst → e'[y]? = env[y]?) →
-      AI g M nv e' s' (setW s i ((sw s).getD i 0 ^^^ c)) kws → Q .normal e' s') :
-    RunsTo g.prog (seqs (.assign t (addrS i) :: (loadsOf loads ++ [.load x .u32 (.var t), .store .u32 (.var t) (.bin .bxor .u32 (.var x) E)]))) env st Q := by
+      AI g M nv e' s' (setW s i ((sw s).getD i 0 ^^^ c)) kws sv → Q .normal e' s') :
+    RunsTo g.prog (seqs (.assign t (addrS i sv) :: (loadsOf loads dv ++ [.load x .u32 (.var t), .store .u32 (.var t) (.bin .bxor .u32 (.var x) E)]))) env st Q := by
   have hes := ai.esz
   obtain ⟨yo0, rest0, hl⟩ : ∃ yo0 rest0, loads = yo0 :: rest0 := by
     cases loads with
     | nil => exact absurd rfl hl0
     | cons a b => exact ⟨a, b, rfl⟩
-  have hne : loadsOf loads ++ [.load x .u32 (.var t), .store .u32 (.var t) (.bin .bxor .u32 (.var x) E)] =
-      (.load yo0.1 .u8 (addrD yo0.2)) :: (loadsOf rest0 ++ [.load x .u32 (.var t), .store .u32 (.var t) (.bin .bxor .u32 (.var x) E)]) := by
+  have hne : loadsOf loads dv ++ [.load x .u32 (.var t), .store .u32 (.var t) (.bin .bxor .u32 (.var x) E)] =
+      (.load yo0.1 .u8 (addrD yo0.2 dv)) :: (loadsOf rest0 dv ++ [.load x .u32 (.var t), .store .u32 (.var t) (.bin .bxor .u32 (.var x) E)]) := by
     rw [hl]; rfl
   rw [hne, seqs_cons2, ← hne]
-  let E1 := setVar env t (mkPtr g.bs (g.baseS + 4 * i), Lab.pub)
-  have ai1 : AI g M nv (setVar env t (mkPtr g.bs (g.baseS + 4 * i), Lab.pub)) st s kws :=
-    ⟨by rw [size_setVar]; exact hes, by rw [get_set_ne _ _ _ _ (by omega)]; exact ai.e0, ai.klen, ai.obj, ai.oth, ai.msz, ai.ent⟩
+  have ai1 : AI g M nv (setVar env t (mkPtr g.bs (g.baseS + 4 * i), Lab.pub)) st s kws sv :=
+    ⟨by rw [size_setVar]; exact hes, by rw [get_set_ne _ _ _ _ ht.1]; exact ai.e0, ai.klen, ai.obj, ai.oth, ai.msz, ai.ent⟩
   refine runs_seq (Q := fun e s' => e = setVar env t (mkPtr g.bs (g.baseS + 4 * i), Lab.pub) ∧ s' = st) (runs_assign _ (evalE_addrS g i hi ai.e0) ⟨rfl, rfl, rfl⟩) ?_
   intro e s' ⟨he, hs⟩; rw [he, hs]
   obtain ⟨XD', hmd, hXDs, hd'⟩ := data_block ai dg.bd dg.hne dg.XD dg.based off dat dg.h0 hd
@@ -302,20 +301,20 @@ theorem ai_xor_data {g : AGeo} {M : Array Block} (dg : DGeo g M) {nv : Nat} {env
       (∀ z, z ∉ loads.map Prod.fst → e'[z]? = (setVar env t (mkPtr g.bs (g.baseS + 4 * i), Lab.pub))[z]?) ∧
       (∀ yo ∈ loads, EnvHas e' yo.1 (dat.getD yo.2 0).toNat)) _ (by simp) _ (by rw [hl]; simp [loadsOf]) _ _ ?_ ?_
   · refine (runs_loads dg.bd dg.based off XD' dat dg.hbd30 (by rw [hXDs]; exact dg.hlt) hd' loads _ st hl0
-      (by rw [get_set_ne _ _ _ _ (by omega)]; exact he1) hmd (fun yo hyo => by have := hall yo hyo; rw [size_setVar, hes]; omega) hnd).weaken ?_
+      (by rw [get_set_ne _ _ _ _ ht.2.1]; exact he1) hmd (fun yo hyo => by have := hall yo hyo; rw [size_setVar, hes]; exact ⟨this.2.1, this.2.2.1, this.2.2.2.2.2⟩) hnd).weaken ?_
     intro sig e' s' ⟨h1, h2, h3, h4, h5, h6⟩
     exact ⟨h1, by rw [h2, size_setVar]; exact hes, h3, h4, h5, h6⟩
   · intro e' s' ⟨hsz, hmm, hent, hfr, hhas⟩
-    have ai2 : AI g M nv e' s' s kws :=
-      ⟨hsz, by rw [hfr 0 (fun h => by obtain ⟨yo, hyo, hy0⟩ := List.mem_map.mp h; have := (hall yo hyo).1; omega)]; exact ai1.e0, ai.klen,
+    have ai2 : AI g M nv e' s' s kws sv :=
+      ⟨hsz, by rw [hfr sv (fun h => by obtain ⟨yo, hyo, hy0⟩ := List.mem_map.mp h; exact (hall yo hyo).1 hy0)]; exact ai1.e0, ai.klen,
        by rw [hmm]; exact ai.obj, by rw [hmm]; exact ai.oth, by rw [hmm]; exact ai.msz, by rw [hent]; exact ai.ent⟩
-    have htn : t ∉ loads.map Prod.fst := fun h => by obtain ⟨yo, hyo, hy0⟩ := List.mem_map.mp h; exact (hall yo hyo).2.2.1 hy0
-    refine ai_xor_tail ai2 i t x E c hi (by omega) (by omega) htx (by rw [hfr t htn]; exact get_set_eq _ _ _ (by omega)) ?_ ?_
+    have htn : t ∉ loads.map Prod.fst := fun h => by obtain ⟨yo, hyo, hy0⟩ := List.mem_map.mp h; exact (hall yo hyo).2.2.2.1 hy0
+    refine ai_xor_tail ai2 i t x E c hi ⟨ht.1, ht.2.2⟩ ⟨hx.1, hx.2.2⟩ htx (by rw [hfr t htn]; exact get_set_eq _ _ _ (by omega)) ?_ ?_
     · intro e'' hfr2
       apply hE
       intro yo hyo
       obtain ⟨l, hv, hl⟩ := hhas yo hyo
-      exact ⟨l, by rw [hfr2 yo.1 (hall yo hyo).2.2.2.1]; exact hv, hl⟩
+      exact ⟨l, by rw [hfr2 yo.1 (hall yo hyo).2.2.2.2.1]; exact hv, hl⟩
     · intro e'' s'' hsz'' hfr2 ai3
       refine hQ e'' s'' hsz'' (fun y h1 h2 h3 => ?_) ai3
       rw [hfr2 y h2, hfr y h3, get_set_ne _ _ _ _ (fun e => h1 e.symm)]
